@@ -39,7 +39,7 @@ type Ctx struct {
 func NewCtx(id, tier, level string) *Ctx {
 	c := &Ctx{ID: id, Tier: tier, Level: level, Start: time.Now(), Coverage: map[string]any{}, reported: map[string]bool{}}
 	c.Seed, _ = strconv.ParseInt(os.Getenv("VERIF_SEED"), 10, 64)
-	def := 150
+	def := 420
 	if tier == "thorough" {
 		def = 1500
 	}
